@@ -488,11 +488,10 @@ pub fn roundtrip(shapes_in: &[Shape], pages_in: &[usize], mut garbage: Option<&m
         ..Default::default()
     };
     // known-defect preconditions, computed from what `serialize` returned (see NOTES.md / findings):
-    //  A: a layer is AllValidList although definition levels exist
+    //  (A: AllValidList with definition levels — fixed in /repo by c820773, no longer special-cased)
     //  B: several pages are unravelled together and, above a list, one page is AllValidItem where another is
     //     NullableItem (`append_n(num_items)` uses the leaf item count)
     //  C: a page without any visible leaf item whose (empty) leaf array still carries a validity buffer
-    let flag = std::cell::Cell::new(false);
     let flag_b = std::cell::Cell::new(false);
     let flag_c = std::cell::Cell::new(false);
     //  D: several pages, a page after the first has repetition but no definition levels (>= 2 list layers):
@@ -500,16 +499,22 @@ pub fn roundtrip(shapes_in: &[Shape], pages_in: &[usize], mut garbage: Option<&m
     let flag_d = std::cell::Cell::new(false);
     let meanings_seen = std::cell::RefCell::new(String::new());
     let fail = |cls: &str, what: &str, detail: String| Failure {
-        sig: if flag_c.get() {
-            format!("repdef-zero-item-page-with-leaf-validity-{cls}")
-        } else if flag.get() {
-            format!("repdef-allvalidlist-with-def-levels-{cls}")
-        } else if flag_b.get() {
-            format!("repdef-composite-allvaliditem-above-list-{cls}")
-        } else if flag_d.get() {
-            format!("repdef-composite-later-page-without-def-levels-{cls}")
-        } else {
-            format!("repdef-{cls}-{kinds}")
+        sig: {
+            // one signature per root cause + symptom kind
+            let kind = match cls {
+                "panic" => "panic",
+                "structure" | "validity" | "null-vs-empty" => "values",
+                _ => "malformed",
+            };
+            if flag_c.get() {
+                format!("repdef-zero-item-page-with-child-validity-{kind}")
+            } else if flag_b.get() {
+                format!("repdef-composite-allvaliditem-above-list-{kind}")
+            } else if flag_d.get() {
+                format!("repdef-composite-later-page-without-def-levels-{kind}")
+            } else {
+                format!("repdef-{cls}-{kinds}")
+            }
         },
         what: what.to_string(),
         detail: format!("kinds {kinds} expected rows: {exp_s}; def_meaning(inner->outer, per page) {}; {detail}", meanings_seen.borrow()),
@@ -571,9 +576,6 @@ pub fn roundtrip(shapes_in: &[Shape], pages_in: &[usize], mut garbage: Option<&m
             total_levels += n_levels;
             has_rep |= rep.is_some();
             has_def |= def.is_some();
-            if ser.definition_levels.is_some() && ser.def_meaning.iter().any(|m| *m == DefinitionInterpretation::AllValidList) {
-                flag.set(true);
-            }
             if !unravelers.is_empty() && ser.repetition_levels.is_some() && ser.definition_levels.is_none() && shapes[0].layers.iter().filter(|l| l.kind == Kind::List).count() >= 2 {
                 flag_d.set(true);
             }
